@@ -5,7 +5,9 @@
 //!
 //! A *scenario* is a set of named dictionaries built through the public API plus queries; the
 //! scenario (reduced to the failing query) is the replay input.
-use harper_core::spell::FuzzyMatchResult;
+use harper_core::spell::{suggest_correct_spelling, FuzzyMatchResult};
+use fst::{IntoStreamer, Streamer};
+use levenshtein_automata::LevenshteinAutomatonBuilder;
 use harper_core::{CharString, Dictionary, FstDictionary, MergedDictionary, MutableDictionary, WordId, WordMetadata};
 use hv::common::*;
 use serde_json::{json, Value};
@@ -163,13 +165,25 @@ struct Cx {
     curated_m: Option<Arc<MutableDictionary>>,
     curated_emitted: HashMap<String, String>,
     fst_cases: u64,
+    /// direct monitor of the stream contract: our own fst::Map per FstDictionary (built from the sorted
+    /// words_iter exactly as FstDictionary::new builds its index) and one automaton builder per bound
+    fst_maps: HashMap<String, Arc<(fst::Map<Vec<u8>>, Vec<Vec<char>>)>>,
+    builders: HashMap<u8, Arc<LevenshteinAutomatonBuilder>>,
+    stream_checked: u64,
+    suggest_cases: u64,
 }
 
 impl Cx {
     fn tag(&mut self, m: &WordMetadata) -> usize {
         let key = serde_json::to_string(m).unwrap_or_else(|_| format!("{m:?}"));
         let n = self.meta_tags.len();
-        *self.meta_tags.entry(key).or_insert(n)
+        if let Some(t) = self.meta_tags.get(&key) {
+            return *t;
+        }
+        self.meta_tags.insert(key, n);
+        // the one metadata field the suggestion score reads (C15Suggest.is_common), declared per tag
+        self.rep.case(&format!("O {} {}", n, u8::from(m.common)), "O");
+        n
     }
     /// the Unicode data the models are parameterised with: dumped from Rust's `char` for every
     /// character that occurs, before its first use; also monitors the law the theorems assume
@@ -578,6 +592,13 @@ fn run_scenario(cx: &mut Cx, s: &Scenario) {
                                 }
                             }
                         }
+                        suggest_case(cx, b, query, &q, &ql_string, &r, &raw, &fail_input);
+                        if b.is_fst {
+                            stream_monitor(cx, b, &qn, query.d, &fail_input);
+                            if ql_string != qn {
+                                stream_monitor(cx, b, &ql_string, query.d, &fail_input);
+                            }
+                        }
                         if !s.malformed {
                             fuzzy_oracle(cx, b, query, &qn, &ql_chars, &ql_string, &r, &fail_input);
                         }
@@ -649,6 +670,122 @@ trait AsciiChars {
 impl AsciiChars for Vec<char> {
     fn is_ascii_chars(&self) -> bool {
         self.iter().all(|c| c.is_ascii())
+    }
+}
+
+/// independent copy of score_suggestion (spell/mod.rs), over i64
+fn score(mw: &[char], w: &[char], dist: u8, md: &WordMetadata) -> i64 {
+    if mw.is_empty() || w.is_empty() {
+        return i32::MAX as i64;
+    }
+    let mut sc = dist as i64 * 10;
+    if mw[0] == w[0] {
+        sc -= 10;
+    }
+    if mw[mw.len() - 1] == 's' && w[w.len() - 1] == 's' {
+        sc -= 5;
+    }
+    if md.common {
+        sc -= 5;
+    }
+    if w.iter().filter(|c| **c == '\'').count() == 1 {
+        sc -= 5;
+    }
+    sc
+}
+
+/// suggest_correct_spelling on the same (query, bound, cap): correspondence with C15Suggest (extracted) + oracle:
+/// the suggestions are exactly the words of fuzzy_match's result (nothing dropped or added: C15_order_suggestions),
+/// hence capped, in the stable order of the score
+#[allow(clippy::too_many_arguments)]
+fn suggest_case(cx: &mut Cx, b: &Built, query: &Query, q: &[char], ql_string: &[char], r: &[(Vec<char>, u8, WordMetadata)], raw: &str, fail_input: &Value) {
+    let who = format!("{} ({})", b.def.name, b.def.ty);
+    let head = format!("S {} {} {} | {} | {} | {}", b.gname, query.d, query.k, cps(q), cps(ql_string), raw);
+    let got: Result<Vec<Vec<char>>, String> = guarded(|| suggest_correct_spelling(q, query.k, query.d, &b.dict).into_iter().map(|w| w.to_vec()).collect());
+    cx.suggest_cases += 1;
+    match got {
+        Err(m) => {
+            let pc = panic_class(&m);
+            cx.rep.case(&head, &format!("P {pc}"));
+            cx.rep.fail("suggest_panic", format!("suggest_correct_spelling on {who} panicked ({pc}) at {} although fuzzy_match did not: {m}", last_panic_location()), fail_input.clone());
+        }
+        Ok(sug) => {
+            cx.rep.case(&head, format!("S {}: {}", sug.len(), sug.iter().map(|w| cps(w)).collect::<Vec<_>>().join(", ")).trim());
+            let show = |v: &[Vec<char>]| v.iter().map(|w| w.iter().collect::<String>()).collect::<Vec<_>>();
+            if sug.len() > query.k {
+                cx.rep.fail("suggest_cap", format!("{who}: {} suggestions for result_limit = {}", sug.len(), query.k), fail_input.clone());
+            }
+            let mut a: Vec<&Vec<char>> = sug.iter().collect();
+            let mut f: Vec<&Vec<char>> = r.iter().map(|x| &x.0).collect();
+            a.sort();
+            f.sort();
+            if a != f {
+                cx.rep.fail("suggest_not_fuzzy", format!("{who}: the suggestions {:?} for {:?} (d={}, k={}) are not the words of fuzzy_match's result {:?}", show(&sug), query.q, query.d, query.k, show(&r.iter().map(|x| x.0.clone()).collect::<Vec<_>>())), fail_input.clone());
+            } else {
+                // Vec::sort_by_key is stable: one possible outcome
+                let mut want: Vec<&(Vec<char>, u8, WordMetadata)> = r.iter().collect();
+                want.sort_by_key(|x| score(q, &x.0, x.1, &x.2));
+                let want: Vec<Vec<char>> = want.into_iter().map(|x| x.0.clone()).collect();
+                if want != sug {
+                    cx.rep.fail("suggest_order", format!("{who}: the suggestions for {:?} (d={}, k={}) are {:?}, but fuzzy_match's result in ascending score order (ties in the order returned) is {:?}", query.q, query.d, query.k, show(&sug), show(&want)), fail_input.clone());
+                }
+            }
+            let distinct_scores: HashSet<i64> = r.iter().map(|x| score(q, &x.0, x.1, &x.2)).collect();
+            cx.rep.count(&format!("suggest:distinct-scores:{}", bucket(distinct_scores.len())));
+            if r.iter().map(|x| &x.0).ne(sug.iter()) {
+                cx.rep.count("suggest:reordered");
+            }
+        }
+    }
+}
+
+/// DIRECT monitor of the stream contract (C15_stream_contract_declarative): our own fst::Map over the sorted
+/// words_iter of the dictionary (= its fuzzy index, C15_fst_new_in_step), searched with the Levenshtein DFA of
+/// `x` for bound `d` exactly as FstDictionary::fuzzy_match does, against brute force (full-matrix distance):
+/// the stream must be exactly [(i, lev(x, w_i)) | lev(x, w_i) <= d], in index order
+fn stream_monitor(cx: &mut Cx, b: &Built, x: &[char], d: u8, fail_input: &Value) {
+    let entry = match cx.fst_maps.get(&b.gname) {
+        Some(e) => e.clone(),
+        None => {
+            let mut ws: Vec<Vec<char>> = b.words.clone();
+            ws.sort();
+            ws.dedup();
+            let built = guarded(|| {
+                let mut builder = fst::MapBuilder::memory();
+                for (i, w) in ws.iter().enumerate() {
+                    builder.insert(w.iter().collect::<String>(), i as u64).expect("insertion not in lexicographical order");
+                }
+                fst::Map::new(builder.into_inner().unwrap()).expect("unable to build FST map")
+            });
+            let Ok(map) = built else { return };
+            let e = Arc::new((map, ws));
+            cx.fst_maps.insert(b.gname.clone(), e.clone());
+            e
+        }
+    };
+    let builder = cx.builders.entry(d).or_insert_with(|| Arc::new(LevenshteinAutomatonBuilder::new(d, false))).clone();
+    let xs: String = x.iter().collect();
+    let got: Result<Vec<(u64, u8)>, String> = guarded(|| {
+        let dfa = builder.build_dfa(&xs);
+        let mut stream = entry.0.search_with_state(&dfa).into_stream();
+        let mut out = vec![];
+        while let Some((_, v, st)) = stream.next() {
+            out.push((v, dfa.distance(st).to_u8()));
+        }
+        out
+    });
+    let want: Vec<(u64, u8)> = entry.1.iter().enumerate().filter_map(|(i, w)| lev_within(x, w, d as usize).map(|e| (i as u64, e as u8))).collect();
+    cx.stream_checked += 1;
+    match got {
+        Ok(g) if g == want => {}
+        Ok(g) => {
+            let pos = g.iter().zip(want.iter()).position(|(a, b)| a != b).unwrap_or(g.len().min(want.len()));
+            let word = |p: Option<&(u64, u8)>| p.map(|(i, e)| format!("{:?}@{e}", entry.1.get(*i as usize).map(|w| w.iter().collect::<String>()).unwrap_or_default())).unwrap_or_else(|| "end of stream".into());
+            cx.rep.fail("stream_contract", format!("fst::Map::search_with_state(levenshtein DFA of {xs:?}, bound {d}) over the {} words of {} streams {} items, brute force finds {}; first difference at position {pos}: streamed {} vs expected {}", entry.1.len(), b.def.name, g.len(), want.len(), word(g.get(pos)), word(want.get(pos))), fail_input.clone());
+        }
+        Err(m) => {
+            cx.rep.fail("stream_contract", format!("fst::Map::search_with_state(levenshtein DFA of {xs:?}, bound {d}) panicked: {m}"), fail_input.clone());
+        }
     }
 }
 
@@ -916,6 +1053,10 @@ pub fn run(a: &Args, corpus: &[Value]) {
         curated_m: None,
         curated_emitted: HashMap::new(),
         fst_cases: 0,
+        fst_maps: HashMap::new(),
+        builders: HashMap::new(),
+        stream_checked: 0,
+        suggest_cases: 0,
     };
     cx.rep.rule = "scenarios = named dictionaries built through the public API (MutableDictionary::extend_words, FstDictionary::new, FstDictionary::from(Mutable), MergedDictionary incl. nested / duplicated / empty children, the two curated dictionaries) x queries (dictionary words, re-cased, 1-3 random edits, typographic apostrophes, non-ASCII incl. length-changing lower-casing, empty, long up to 300) x max_distance 0..3 (4, thorough also 5, on small dictionaries; 255 for the distance function with strings up to 300 characters) x max_results {0,1,2,3,5,10,100,1000}; every query asks all exact-trait methods (char and _str variants, get_word_from_id) and fuzzy_match/_str on every back-end of the scenario; per scenario word_count / words_iter of merged dictionaries and == between them. non-trivial = distinct (scenario, query) where some back-end contains the word or returns >= 1 fuzzy result".into();
     // the Unicode data of ASCII is declared up front
@@ -1242,6 +1383,8 @@ fn exhaustive(cx: &mut Cx) {
 
 fn finish(mut cx: Cx) {
     cx.rep.monitor("fst_stream_contract(fuzzy cases on an FstDictionary compared with the model under the contract)", cx.fst_cases);
+    cx.rep.monitor("fst_stream_contract_direct(streams of our own fst::Map + levenshtein DFA over the dictionary's sorted words compared with brute force)", cx.stream_checked);
+    cx.rep.extra.insert("suggest_cases".into(), json!(cx.suggest_cases));
     cx.rep.extra.insert("distinct_metadata_values".into(), json!(cx.meta_tags.len()));
     cx.rep.extra.insert("distinct_characters_declared".into(), json!(cx.declared.len()));
     let _ = BTreeSet::<u8>::new();
